@@ -78,6 +78,14 @@ func c01Sink(sink, neigh, e, extra string) string {
 		return fmt.Sprintf(`<svg id="s"%s%s><use xlink:href="%sa{{ %s }}b%s" xml:lang="{{ %s }}"></use><a xlink:title="{{ %s }}">t</a></svg>`, extra, attr, pre, e, post, e, e)
 	case "bound":
 		return fmt.Sprintf(`<p id="s"%s%s :title="%s"></p>`, extra, attr, e)
+	// bound attributes whose expression is spelled with {{ }}: the substituted value is the
+	// attribute's value - it is not read as an expression (an object literal, a path) a second time
+	case "bclassm":
+		return fmt.Sprintf(`<p id="s"%s%s class="k" :class="{{ %s }}"></p>`, extra, attr, e)
+	case "bstylem":
+		return fmt.Sprintf(`<p id="s"%s%s :style="{{ %s }}" :title="{{ %s }}"></p>`, extra, attr, e, e)
+	case "bclassobjm":
+		return fmt.Sprintf(`<p id="s"%s%s :class="{ 'btn-{{ %s }}': t }" :data-k="{{ %s }}"></p>`, extra, attr, e, e)
 	case "vbind":
 		return fmt.Sprintf(`<p id="s"%s%s v-bind:title="%s"></p>`, extra, attr, e)
 	}
@@ -286,12 +294,16 @@ func c01Render(construct string, files Files, page string, data map[string]any) 
 	return second.String(), err
 }
 
+// c01LastOut: the bytes of the latest probe (what the outcome count is taken over)
+var c01LastOut string
+
 // c01Probe renders one context with one value and returns the failure mode ("" = inert).
 func c01Probe(ctx *core.Ctx, sink, neigh, construct string, v any) (mode, detail string) {
 	ref := c01Ref(sink, neigh, construct)
 	files, page := c01Program(sink, neigh, construct)
 	ctx.Eval(1)
 	out, err := c01Render(construct, files, page, c01Data(v))
+	c01LastOut = out
 	if strings.HasPrefix(ref, "ERROR") {
 		return "reference-fails", ref
 	}
@@ -352,7 +364,7 @@ func (c *c01Case) Run(ctx *core.Ctx) {
 		return
 	}
 	mode, detail := c01Probe(ctx, c.Sink, c.Neigh, c.Construct, v)
-	ctx.Outcome(mode)
+	ctx.Outcome(mode + "|" + fmt.Sprint(core.Hash(c01LastOut))) // distinct outcomes = distinct rendered outputs
 	if mode == "" {
 		return
 	}
@@ -387,7 +399,7 @@ func init() {
 	core.Register(&core.Check{
 		ID:    "C01",
 		Level: "exploration",
-		Rule: "all token strings up to the bound over the alphabet " + fmt.Sprintf("%q", c01Alphabet) + " plus 7 non-string values, in every sink (text, v-text, interpolated attr, :attr, v-bind:attr, interpolated namespaced attributes xlink:href / xml:lang / xlink:title inside <svg>) x static neighbourhood (6) x enclosing construct (" + fmt.Sprint(len(c01Constructs)) + ": 13 single-evaluation constructs (incl. a sink below <pre>) swept with the full alphabet, 12 constructs in which one source node is evaluated repeatedly - slot content used twice / in a loop, cached components, template-rooted components, a second render - swept with the 7 tokens that matter for repeated interpolation); plus a sizes part: every token at the start / middle / end of values of 21 lengths around 16 .. 4096 in every sink; " +
+		Rule: "all token strings up to the bound over the alphabet " + fmt.Sprintf("%q", c01Alphabet) + " plus 7 non-string values, in every sink (text, v-text, interpolated attr, :attr, v-bind:attr, interpolated namespaced attributes xlink:href / xml:lang / xlink:title inside <svg>; plus, in 4 constructs, bound :class / :style / :title / :data-k whose expression is spelled with {{ }}) x static neighbourhood (6) x enclosing construct (" + fmt.Sprint(len(c01Constructs)) + ": 13 single-evaluation constructs (incl. a sink below <pre>) swept with the full alphabet, 12 constructs in which one source node is evaluated repeatedly - slot content used twice / in a loop, cached components, template-rooted components, a second render - swept with the 7 tokens that matter for repeated interpolation); plus a sizes part: every token at the start / middle / end of values of 21 lengths around 16 .. 4096 in every sink; " +
 			"oracle: HTML5 re-parse has the same element/attribute-name skeleton as with the value 'zqx', and a canary bound to `secret` never appears. non-trivial = value contains one of < > \" ' & {; distinct = distinct (context, token vector)",
 		Bounds:      map[string]string{"quick": "token strings of length <= 3 in all contexts; text sink inside 15 special host elements (raw-text, RCDATA, noscript in both scripting modes, select, table, svg text, style / script inside svg and math) with the host's end tag added to the alphabet, length <= 3", "thorough": "token strings of length <= 3 in all contexts, length 4 in the N0 neighbourhood of every sink and construct"},
 		Assumptions: []string{"golang.org/x/net/html is a faithful HTML5 parser", "v-html sinks and script/style bodies are exempt and never used as sinks"},
@@ -433,6 +445,15 @@ func init() {
 					}
 				}
 			}
+			// bound attributes spelled with {{ }}
+			tokenStrings(c01Alphabet, 3, func(tok []int) {
+				val := joinTokens(c01Alphabet, tok)
+				for _, c := range []string{"top", "forchild", "incbound", "slot2"} {
+					for _, s := range []string{"bclassm", "bstylem", "bclassobjm"} {
+						emit(&c01Case{Sink: s, Neigh: "N0", Construct: c, Tokens: append([]int(nil), tok...), Value: val})
+					}
+				}
+			})
 			full, n0 := 3, 3
 			if tier == "thorough" {
 				full, n0 = 3, 4
